@@ -199,6 +199,15 @@ func (m *Message) buildBody() {
 		m.Plain = plain
 	}
 	switch s.Encoding {
+	case "gzip-padded":
+		m.Entity = append(compress("gzip", plain), "\x00\x00\x00\x00 padding after the gzip member"...)
+		m.Plain, m.Encoding = m.Entity, "gzip"
+	case "gzip-truncated":
+		z := compress("gzip", plain)
+		m.Entity = z[:len(z)-len(z)/3-1]
+		m.Plain, m.Encoding = m.Entity, "gzip"
+	case "deflate-bad":
+		m.Encoding = "deflate"
 	case "gzip-bad":
 		m.Encoding = "gzip"
 	case "deflate-zlib", "deflate-zlib-small":
